@@ -284,13 +284,15 @@ func checkC19(t core.TB, rec *core.Recorder, env *gen.Env, ec *errCase) {
 	}
 	if res.TimedOut {
 		// bounded time is part of the property for broken packages; re-confirm once
-		res2 := e2e.Run(e2e.Bin(ec.FrontEnd), args, root, e2e.BaseEnv(), 150*time.Second)
+		// (a loaded machine can make one run slow: the repetition gets a much larger limit, and a
+		// run that finishes then is judged like any other)
+		res2 := e2e.Run(e2e.Bin(ec.FrontEnd), args, root, e2e.BaseEnv(), 10*time.Minute)
 		if res2.TimedOut {
-			fail("hang", "the front-end did not finish within 150 s (twice)")
-		} else {
-			rec.Inconclusive("C19: a run timed out once but not when repeated")
+			fail("hang", "the front-end did not finish within 150 s, and not within 10 min when repeated")
+			return
 		}
-		return
+		rec.Count("slow-run-repeated")
+		res = res2
 	}
 	if e2e.HasCrashTrace(res.Out) {
 		fail("crash|"+crashFrame(res.Out), "the front-end crashed (panic / fatal error / signal) instead of failing cleanly")
